@@ -261,8 +261,6 @@ def universe_unit(rep):
             shared[key] = (DynamicUniverse(dict((names[i], (None if e == -1 else ts(base + e))) for i, e in enumerate(ent))), [])
         uni, asked = shared[key]
         got = uni.get_assets(ts(base + t))
-        got.append("mutated-by-the-caller")       # what a caller does with the returned list must not matter to the universe
-        got = got[:-1]
         asked.append((t, exp))
         if len(asked) % 3 == 0:
             t_old, exp_old = asked[len(asked) // 3 - 1]
